@@ -585,6 +585,10 @@ func (d *distinctEngine) callDistinct(f *ssa.Function, c *ssa.Call, depth int) b
 }
 
 func ruleDistinct(w *World, r *Report, f *ssa.Function) {
+	if why := seenLeavesLoop(w, f); why != "" {
+		r.Rule("NOSKIP", "a duplicate found in a seen-set skips that element only: the hit edge of the test returns to the header of the innermost loop around it")
+		r.Add(Obligation{Rule: "NOSKIP", Key: "NOSKIP / " + w.FuncName(f) + " / seen-set hit", Pos: w.Pos(f.Pos()), Status: Violated, Detail: why, Canary: w.IsCanary(f)})
+	}
 	r.Rule("DISTINCT", "every success return of a function documented to return a de-duplicated list is duplicate-free by construction: the keys of a map range (common.Unique/Union, a private de-duplication helper), a miss-then-insert guarded append, or an element-wise notation conversion of such a list")
 	d := distinctFor(w)
 	name := w.FuncName(f)
@@ -1318,6 +1322,18 @@ func ruleNoClamp(w *World, r *Report, fn string) {
 				}
 			}
 		})
+		for _, ret := range returnsOf(f) {
+			if len(ret.Results) == 0 {
+				continue
+			}
+			if vals, ok := sliceLiteral(ret.Results[0]); ok {
+				for _, el := range vals {
+					if k, isK := resolve(el).(*ssa.Const); isK && k.Value != nil && isStringType(k.Type()) {
+						bad = "a constant vertical ID (" + k.Value.String() + ") is returned at " + w.Pos(ret.Pos()) + ", whatever the input index is (below ground the ancestor of a negative index is negative at every zoom, also at zoom 0)"
+					}
+				}
+			}
+		}
 	}
 	if bad != "" {
 		r.add("NOCLAMP", fn, w.Pos(f.Pos()), Violated, bad)
@@ -1536,12 +1552,50 @@ func ruleNoSkip(w *World, r *Report, fn string) {
 				}
 			}
 		}
+		// a counted inner loop (for i := lo; i <= hi; i++) that records: its header
+		// dominates the recording block and lies on a cycle with it that avoids
+		// the outer header
+		for e := range blocks {
+			if !stop[e] {
+				continue
+			}
+			back := reachableFrom(e, map[*ssa.BasicBlock]bool{header: true})
+			for h := range blocks {
+				if h != header && h != e && h.Dominates(e) && back[h] {
+					stop[h] = true
+				}
+			}
+		}
 		// an element may be left out when its group is already complete: a branch taken
 		// because a looked-up group reports IsDense() does not lose anything
 		denseSkip := func(cond ssa.Value) (bool, bool) {
-			c, ok := resolve(cond).(*ssa.Call)
-			if ok && calleeOf(c) != nil && calleeOf(c).Name() == "IsDense" {
-				return false, true // explore only the not-dense side
+			cv := resolve(cond)
+			neg := false
+			if u, ok := cv.(*ssa.UnOp); ok && u.Op == token.NOT {
+				cv, neg = resolve(u.X), true
+			}
+			if c, ok := cv.(*ssa.Call); ok && calleeOf(c) != nil && calleeOf(c).Name() == "IsDense" {
+				return neg, true // explore only the not-dense side
+			}
+			// a hit in a seen-set (the key is inserted on the miss side) legitimately
+			// records nothing: explore only the miss side
+			var lk *ssa.Lookup
+			switch y := cv.(type) {
+			case *ssa.Extract:
+				if y.Index == 1 {
+					lk, _ = y.Tuple.(*ssa.Lookup)
+				}
+			case *ssa.Lookup:
+				lk = y
+			}
+			if lk != nil {
+				if mm, ok := resolve(lk.X).(*ssa.MakeMap); ok {
+					for _, ref := range *mm.Referrers() {
+						if mu, ok := ref.(*ssa.MapUpdate); ok && equivValue(mu.Key, lk.Index) {
+							return neg, true
+						}
+					}
+				}
 			}
 			return false, false
 		}
@@ -1957,4 +2011,103 @@ func elementParts(w *World, f *ssa.Function, el ssa.Value) []ssa.Value {
 		}
 	}
 	return out
+}
+
+// ifHitSucc: the successor of the If in blk taken when the lookup hits.
+func ifHitSucc(blk *ssa.BasicBlock, lk *ssa.Lookup) *ssa.BasicBlock {
+	t, fl, ifi := ifSuccs(blk)
+	if ifi == nil {
+		return nil
+	}
+	c := resolve(ifi.Cond)
+	neg := false
+	if u, ok := c.(*ssa.UnOp); ok && u.Op == token.NOT {
+		c, neg = resolve(u.X), true
+	}
+	switch y := c.(type) {
+	case *ssa.Extract:
+		if y.Tuple != ssa.Value(lk) || y.Index != 1 {
+			return nil
+		}
+	case *ssa.Lookup:
+		if y != lk {
+			return nil
+		}
+	default:
+		return nil
+	}
+	if neg {
+		return fl
+	}
+	return t
+}
+
+// seenLeavesLoop: a test of a local seen-set whose hit edge leaves the
+// innermost loop around it (break, labelled continue of an outer loop)
+// instead of going on with that loop's next element.
+func seenLeavesLoop(w *World, f *ssa.Function) string {
+	for _, blk := range f.Blocks {
+		_, _, ifi := ifSuccs(blk)
+		if ifi == nil {
+			continue
+		}
+		c := resolve(ifi.Cond)
+		if u, ok := c.(*ssa.UnOp); ok && u.Op == token.NOT {
+			c = resolve(u.X)
+		}
+		var lk *ssa.Lookup
+		switch y := c.(type) {
+		case *ssa.Extract:
+			lk, _ = y.Tuple.(*ssa.Lookup)
+		case *ssa.Lookup:
+			lk = y
+		}
+		if lk == nil {
+			continue
+		}
+		mm, ok := resolve(lk.X).(*ssa.MakeMap)
+		if !ok {
+			continue
+		}
+		// a seen-set: the looked-up key is also inserted on the miss side
+		inserts := false
+		for _, ref := range *mm.Referrers() {
+			if mu, ok := ref.(*ssa.MapUpdate); ok && equivValue(mu.Key, lk.Index) {
+				inserts = true
+			}
+		}
+		if !inserts {
+			continue
+		}
+		hit := ifHitSucc(blk, lk)
+		if hit == nil {
+			continue
+		}
+		var inner map[*ssa.BasicBlock]bool
+		var innerHdr *ssa.BasicBlock
+		pick := func(bl map[*ssa.BasicBlock]bool, hdr *ssa.BasicBlock) {
+			if bl[blk] && (inner == nil || len(bl) < len(inner)) {
+				inner, innerHdr = bl, hdr
+			}
+		}
+		for _, sr := range findSliceRanges(f) {
+			pick(sr.blocks(), sr.Header)
+		}
+		for _, mr := range findMapRanges(f) {
+			pick(mr.blocks(), mr.Header)
+		}
+		if inner == nil {
+			continue
+		}
+		for b := range reachableFrom(hit, map[*ssa.BasicBlock]bool{innerHdr: true}) {
+			if !inner[b] && b != innerHdr {
+				if _, isRet := b.Instrs[len(b.Instrs)-1].(*ssa.Return); isRet && len(b.Preds) > 0 {
+					// leaving through a return is an answer, not a skipped tail
+					continue
+				}
+				return "when the element tested at " + w.Pos(lk.Pos()) + " is already in the seen-set, the enclosing loop is left (break / labelled continue) instead of going on with its next element: elements after a duplicate are never examined"
+			}
+		}
+	}
+	return ""
 }
